@@ -2,7 +2,7 @@
    check C12R (harness/props/c12repr.py).  The Unicode database is supplied per case as the
    finite list of the non-ASCII code points of the case for which str.isprintable is true. *)
 From Coq Require Import String.
-From Coq Require Import List NArith Bool.
+From Coq Require Import List NArith ZArith Bool.
 Import ListNotations.
 Local Open Scope string_scope.
 From YP Require Import Base.Str Comp.PyRepr Comp.PyLex.
@@ -12,10 +12,17 @@ Definition table_printable (tbl : list N) (c : N) : bool := existsb (N.eqb c) tb
 Definition lex_obs (r : option (str * str)) : obs :=
   oopt (fun p => OL [OS (fst p); OS (snd p)]) r.
 
-(* repr(s); the lexer on repr(s) ++ rest, without and with the triple-quote rule *)
+(* 0: the lexer rejects; 1: it returns exactly (s, rest); 2: it returns something else *)
+Definition lex_flag (s rest : str) (r : option (str * str)) : obs :=
+  match r with
+  | None => OZ 0%Z
+  | Some (a, b) => if andb (str_eqb a s) (str_eqb b rest) then OZ 1%Z else OZ 2%Z
+  end.
+
+(* repr(s); the lexer on repr(s) ++ rest, with and without the triple-quote rule *)
 Definition run_repr (tbl : list N) (s rest : str) : obs :=
   let r := py_repr (table_printable tbl) s in
-  otag "repr" [OS r; lex_obs (py_lex_string (r ++ rest)%list); lex_obs (py_lex_short (r ++ rest)%list)].
+  otag "repr" [OS r; lex_flag s rest (py_lex_string (r ++ rest)%list); lex_flag s rest (py_lex_short (r ++ rest)%list)].
 
 (* the lexer on an arbitrary text *)
 Definition run_lex (text : str) : obs :=
